@@ -318,6 +318,29 @@ def c17(rng, tier):
                 f = None if w.data.shape == want.shape and numpy.array_equal(w.data, want) else 'as_utpm of a container mixing polynomials and plain numbers: element-wise read-back differs (a number must become the constant polynomial)'
                 yield case2, f
             except Exception as e: yield case2, 'raises %s: %s' % (type(e).__name__, str(e)[:100])
+    # ---- blocks of matrix polynomials <-> one matrix polynomial
+    for (D, P) in ((1, 1), (3, 2)):
+        for (rows, cols) in (((2, 1), (2, 3)), ((1,), (2, 2)), ((2, 2), (1,))):
+            blocks = [[U(numpy.array([native.rnd(rng) for _ in range(D * P * r_ * c_)]).reshape(D, P, r_, c_)) for c_ in cols] for r_ in rows]
+            case = {'conv': 'combine_blocks', 'block rows': list(rows), 'block cols': list(cols), 'D': D, 'P': P}
+            for kind in ('list', 'object array'):
+                try:
+                    arg = blocks
+                    if kind == 'object array':
+                        arg = numpy.empty((len(rows), len(cols)), dtype=object)
+                        for i_ in range(len(rows)):
+                            for j_ in range(len(cols)): arg[i_, j_] = blocks[i_][j_]
+                    Z = U.combine_blocks(arg)
+                    f = None; r0 = 0
+                    if Z.data.shape != (D, P, sum(rows), sum(cols)): f = 'shape %s' % (Z.data.shape,)
+                    for i_, r_ in enumerate(rows):
+                        c0 = 0
+                        for j_, c_ in enumerate(cols):
+                            if f is None and not numpy.array_equal(Z.data[:, :, r0:r0 + r_, c0:c0 + c_], blocks[i_][j_].data): f = 'block (%d,%d) of the combined polynomial differs from the block it was built from' % (i_, j_)
+                            c0 += c_
+                        r0 += r_
+                    yield dict(case, container=kind), f
+                except Exception as e: yield dict(case, container=kind), 'raises %s: %s' % (type(e).__name__, str(e)[:100])
     # ---- shift by s then -s on the retained part
     for D in (1, 2, 4):
         x = U(numpy.array([native.rnd(rng) for _ in range(D * 2 * 2)]).reshape(D, 2, 2))
